@@ -279,6 +279,19 @@ func condAtom(v ssa.Value) (string, bool) {
 	if b, ok := v.(*ssa.BinOp); ok {
 		// canonicalise comparisons: a != b  ==  !(a == b); a >= b == !(a < b); a > b == !(a <= b)
 		x, y := ValKey(b.X), ValKey(b.Y)
+		if isFloat(b.X.Type()) {
+			// with NaN, a >= b is not !(a < b): only swap operands, never negate
+			switch b.Op {
+			case token.LSS:
+				return "(" + x + " < " + y + ")", pos
+			case token.GTR:
+				return "(" + y + " < " + x + ")", pos
+			case token.LEQ:
+				return "(" + x + " <= " + y + ")", pos
+			case token.GEQ:
+				return "(" + y + " <= " + x + ")", pos
+			}
+		}
 		switch b.Op {
 		case token.EQL, token.NEQ:
 			if x > y {
@@ -299,6 +312,101 @@ func condAtom(v ssa.Value) (string, bool) {
 		}
 	}
 	return ValKey(v), pos
+}
+
+func isFloat(t types.Type) bool {
+	b, ok := t.Underlying().(*types.Basic)
+	return ok && b.Info()&types.IsFloat != 0
+}
+
+// EqKey is the atom key of "a == b".
+func EqKey(a, b ssa.Value) string {
+	x, y := ValKey(a), ValKey(b)
+	if x > y {
+		x, y = y, x
+	}
+	return "(" + x + " == " + y + ")"
+}
+
+// LtKey is the atom key of "a < b".
+func LtKey(a, b ssa.Value) string { return "(" + ValKey(a) + " < " + ValKey(b) + ")" }
+
+// AtomInfo is the canonical structure behind an atom key: Kind "eq" (A == B),
+// "lt" (A < B), "le" (A <= B, floats only) or "bool" (A itself).
+type AtomInfo struct {
+	Key  string
+	Kind string
+	A, B ssa.Value
+}
+
+// Fact is an atom with its truth value on every feasible path to a block.
+type Fact struct {
+	AtomInfo
+	Truth bool
+}
+
+// atomInfo returns the canonical structure of an If condition and whether
+// the condition equals the atom (true) or its negation.
+func atomInfo(v ssa.Value) (AtomInfo, bool) {
+	key, pos := condAtom(v)
+	for {
+		if u, ok := v.(*ssa.UnOp); ok && u.Op == token.NOT {
+			v = u.X
+			continue
+		}
+		break
+	}
+	ai := AtomInfo{Key: key, Kind: "bool", A: v}
+	if b, ok := v.(*ssa.BinOp); ok {
+		fl := isFloat(b.X.Type())
+		switch b.Op {
+		case token.EQL, token.NEQ:
+			ai.Kind, ai.A, ai.B = "eq", b.X, b.Y
+		case token.LSS:
+			ai.Kind, ai.A, ai.B = "lt", b.X, b.Y
+		case token.GTR:
+			ai.Kind, ai.A, ai.B = "lt", b.Y, b.X
+		case token.GEQ:
+			if fl {
+				ai.Kind, ai.A, ai.B = "le", b.Y, b.X
+			} else {
+				ai.Kind, ai.A, ai.B = "lt", b.X, b.Y
+			}
+		case token.LEQ:
+			if fl {
+				ai.Kind, ai.A, ai.B = "le", b.X, b.Y
+			} else {
+				ai.Kind, ai.A, ai.B = "lt", b.Y, b.X
+			}
+		}
+	}
+	return ai, pos
+}
+
+// FactsOn returns the atoms that have the same truth value on every feasible
+// path to the target block, with their structure.
+func FactsOn(f *ssa.Function, target *ssa.BasicBlock) ([]Fact, bool) {
+	atoms, ok := AtomsOn(f, target)
+	if !ok {
+		return nil, false
+	}
+	infos := map[string]AtomInfo{}
+	for _, b := range f.Blocks {
+		if iff, isIf := b.Instrs[len(b.Instrs)-1].(*ssa.If); isIf {
+			ai, _ := atomInfo(iff.Cond)
+			if _, had := infos[ai.Key]; !had {
+				infos[ai.Key] = ai
+			}
+		}
+	}
+	var out []Fact
+	for k, v := range atoms {
+		if ai, ok := infos[k]; ok {
+			out = append(out, Fact{ai, v})
+		}
+	}
+	sort.Slice(out, func(i, j int) bool { return out[i].Key < out[j].Key })
+	return out, true
 }
 
 // CondAtom is the exported form of condAtom.
